@@ -50,11 +50,16 @@ type c20run struct {
 	serverClose  sync.Map // conn tag -> *atomic.Bool : handler of the first channel closes the connection
 	handlersIn   atomic.Int64
 	handlersOut  atomic.Int64
+	oneShotSeq   atomic.Int64
 }
 
 func (x *c20run) newListener(kind string, closeInitiated *atomic.Bool, reg func(fn func()) (func(), bool), flag func() bool) *listener {
 	l := &listener{kind: kind}
 	l.regAfterCloseInitiated = closeInitiated.Load()
+	// one listener in four is a one-shot listener: it unsubscribes itself from inside its callback
+	// (the notification must not hold a lock that unsubscribing needs)
+	oneShot := x.oneShotSeq.Add(1)%4 == 0
+	var unsubP atomic.Pointer[func()]
 	fn := func() {
 		l.calls.Add(1)
 		if flag() {
@@ -62,15 +67,45 @@ func (x *c20run) newListener(kind string, closeInitiated *atomic.Bool, reg func(
 		} else {
 			l.badFlag.Store(true)
 		}
+		if oneShot {
+			if u := unsubP.Load(); u != nil {
+				(*u)()
+			}
+		}
 	}
 	var unsub func()
 	var ok bool
+	defer func() {
+		if unsub != nil {
+			unsubP.Store(&unsub)
+		}
+	}()
 	if p, stack := runner.Catch(func() { unsub, ok = reg(fn) }); p != nil {
 		x.res.Violate("c20:"+runner.PanicKey(p, stack), fmt.Sprintf("registering a listener panicked: %v", p), runner.TrimStack(stack))
 	}
 	l.registered = ok
 	l.unsub = unsub
 	return l
+}
+
+// bounded runs a library call that must return; a call that is still blocked after the watchdog is a
+// violation (e.g. a close that deadlocks inside a listener callback), not a hang of the check.
+func (x *c20run) bounded(c *runner.Cfg, what string, f func()) bool {
+	done := make(chan struct{})
+	go func() {
+		defer close(done)
+		if p, stack := runner.Catch(f); p != nil {
+			x.res.Violate("c20:"+runner.PanicKey(p, stack), fmt.Sprintf("%s panicked: %v", what, p), runner.TrimStack(stack))
+		}
+	}()
+	select {
+	case <-done:
+		return true
+	case <-time.After(Watchdog):
+		c.Abort.Store(true)
+		x.res.Violate("c20:call-never-returns:"+what, fmt.Sprintf("%s did not return within %v:\n%s", what, Watchdog, Goroutines(8)), nil)
+		return false
+	}
 }
 
 func (x *c20run) handler() mpx.HandleFunc {
@@ -317,11 +352,15 @@ func C20(c *runner.Cfg) *report.Result {
 		case 0:
 			closeInit.Store(true)
 			x.markAll(tag)
-			conn.Close()
+			if !x.bounded(c, "Conn.Close", func() { conn.Close() }) {
+				return
+			}
 		case 1:
 			closeInit.Store(true)
 			x.markAll(tag)
-			conn.Free()
+			if !x.bounded(c, "Conn.Free", func() { conn.Free() }) {
+				return
+			}
 		case 2:
 			// the handler of channel 0 closes the server connection (it set closeInit itself)
 		case 3:
@@ -335,13 +374,23 @@ func C20(c *runner.Cfg) *report.Result {
 		case <-time.After(Watchdog):
 			res.Violate("c20:close-not-observed", fmt.Sprintf("connection %d: Closed() not set %v after the shutdown (initiator %d)", idx, Watchdog, initiator), nil)
 			c.Abort.Store(true)
+			close(stop)
+			return
 		}
 		close(stop)
-		wg.Wait()
-		for _, ch := range opened {
-			runner.Catch(func() { ch.Free() })
+		if !WaitTimeout(&wg, Watchdog) {
+			c.Abort.Store(true)
+			res.Violate("c20:call-never-returns:OnClosed/unsubscribe", fmt.Sprintf("a listener registration or unsubscription racing with the shutdown did not return within %v:\n%s", Watchdog, Goroutines(8)), nil)
+			return
 		}
-		conn.Close()
+		if !x.bounded(c, "Channel.Free/Conn.Close after the shutdown", func() {
+			for _, ch := range opened {
+				runner.Catch(func() { ch.Free() })
+			}
+			conn.Close()
+		}) {
+			return
+		}
 		// quiescence: handlers exited
 		Settle(Watchdog, func() bool {
 			for _, cc := range chans {
